@@ -397,6 +397,126 @@ def program_of(Program, t):
 WRAPPERS = ["program", "program_to", "program_parse", "program_from_bytes", "clvmtree", "stable", "shared",
             "lazynode", "lazynode_backrefs", "fresh", "to_bytes_2026"]
 FRESH_WRAPPERS = {"lazynode", "lazynode_backrefs", "fresh"}
+# one Python tree whose leaves are LazyNode handles of SEVERAL allocators (separate deser_* calls); these kinds
+# derive their own source tree from the generated one (the `src` of the event is the tree the object denotes)
+MIXED_WRAPPERS = ["mixed_d1", "mixed_d2", "mixed_d3", "mixed_fresh_d2", "mixed_program_d2", "mixed_similar",
+                  "mixed_similar_list", "mixed_twice", "mixed_siblings"]
+
+
+class PairObj:
+    """an ordinary Python pair object holding two arbitrary CLVM objects (possibly LazyNode handles)"""
+    __slots__ = ("l", "r")
+    atom = None
+
+    def __init__(self, l, r):
+        self.l = l
+        self.r = r
+
+    @property
+    def pair(self):
+        return (self.l, self.r)
+
+
+class FreshPairObj:
+    """like PairObj, but nested pair objects are rebuilt on every `.pair` access; spec = (spec, spec) | leaf object"""
+    __slots__ = ("spec",)
+    atom = None
+
+    def __init__(self, spec):
+        self.spec = spec
+
+    @property
+    def pair(self):
+        return tuple(FreshPairObj(x) if isinstance(x, tuple) else x for x in self.spec)
+
+
+def classic_of(Program, t):
+    return bytes(program_of(Program, t))
+
+
+def lazy_leaf(mods, t, i):
+    """a LazyNode for tree t out of its own allocator; the deserializer rotates with i"""
+    m, Program, _ = mods
+    b = classic_of(Program, t)
+    k = i % 3
+    if k == 0:
+        return m.deser_legacy(b)
+    if k == 1:
+        return m.deser_backrefs(bytes(m.ser_backrefs(m.deser_legacy(b))))
+    return m.deser_2026(bytes(m.ser_2026(m.deser_legacy(b))))
+
+
+def mixed_spec(mods, t, depth, counter):
+    """nested tuples down to `depth`, LazyNode leaves (each from a separate deserialization) below"""
+    if depth == 0 or not isinstance(t, tuple):
+        counter[0] += 1
+        return lazy_leaf(mods, t, counter[0])
+    return (mixed_spec(mods, t[0], depth - 1, counter), mixed_spec(mods, t[1], depth - 1, counter))
+
+
+def pairs_of(spec, mk):
+    return mk(pairs_of(spec[0], mk), pairs_of(spec[1], mk)) if isinstance(spec, tuple) else spec
+
+
+def vary(t, k):
+    """the same shape with every atom changed (k appended): equal NodePtr numbering, different values"""
+    ops = [("v", t)]
+    vals = []
+    while ops:
+        op, x = ops.pop()
+        if op == "v":
+            if isinstance(x, tuple):
+                ops.append(("b", None))
+                ops.append(("v", x[1]))
+                ops.append(("v", x[0]))
+            else:
+                vals.append(x + bytes([k]))
+        else:
+            r = vals.pop()
+            f = vals.pop()
+            vals.append((f, r))
+    return vals.pop()
+
+
+def mixed_object(mods, kind, t):
+    """-> (object, the tree it denotes)"""
+    m, Program, CLVMTree = mods
+    cnt = [0]
+    if kind in ("mixed_d1", "mixed_d2", "mixed_d3"):
+        d = int(kind[-1])
+        if not isinstance(t, tuple):
+            t = (t, vary(t, 7))
+        return pairs_of(mixed_spec(mods, t, d, cnt), PairObj), t
+    if kind == "mixed_fresh_d2":
+        if not isinstance(t, tuple):
+            t = (t, vary(t, 7))
+        return FreshPairObj(mixed_spec(mods, t, 2, cnt)), t
+    if kind == "mixed_program_d2":
+        if not isinstance(t, tuple):
+            t = (t, vary(t, 7))
+        return pairs_of(mixed_spec(mods, t, 2, cnt), Program.new_pair), t
+    if kind == "mixed_similar":
+        # two deserializations of the same shape with different atoms, side by side
+        t2 = vary(t, 1)
+        return PairObj(m.deser_legacy(classic_of(Program, t)), m.deser_legacy(classic_of(Program, t2))), (t, t2)
+    if kind == "mixed_similar_list":
+        items = [t, vary(t, 1), vary(t, 2), vary(t, 3)]
+        obj = m.deser_legacy(b"\x80")
+        den = b""
+        for i, it in reversed(list(enumerate(items))):
+            obj = PairObj(lazy_leaf(mods, it, i), obj)
+            den = (it, den)
+        return obj, den
+    if kind == "mixed_twice":
+        b = classic_of(Program, t)
+        return PairObj(m.deser_legacy(b), m.deser_legacy(b)), (t, t)
+    if kind == "mixed_siblings":
+        # a LazyNode next to a CLVMTree, a Program and a fresh-children storage of similar trees
+        t1, t2, t3 = vary(t, 1), vary(t, 2), vary(t, 3)
+        obj = PairObj(PairObj(m.deser_legacy(classic_of(Program, t)), CLVMTree.from_bytes(classic_of(Program, t1))),
+                      PairObj(Program.wrap(m.deser_legacy(classic_of(Program, t2))), PairObj(FreshStorage(t3), m.deser_backrefs(classic_of(Program, t)))))
+        return obj, ((t, t1), (t2, (t3, t)))
+    raise ValueError(kind)
 
 
 def wrap(mods, kind, t, classic):
@@ -427,6 +547,11 @@ def wrap(mods, kind, t, classic):
 def conv_one(mods, kind, t, classic):
     m = mods[0]
     try:
+        if kind.startswith("mixed_"):
+            obj, den = mixed_object(mods, kind, t)
+            blob = m.ser_2026(m.clvm_tree_to_lazy_node(obj))
+            res = walk(m.deser_2026(blob), True)
+            return {"ok": True, "blob": list(blob), "res": tree_to_json(res), "src": tree_to_json(den)}
         if kind == "to_bytes_2026":
             blob = program_of(mods[1], t).to_bytes_2026()
         else:
@@ -446,7 +571,8 @@ def cmd_conv(mods, inp, out, kinds):
         classic = bytes(e["bytes"])
         for kind in kinds:
             r = conv_one(mods, kind, t, classic)
-            r.update({"ev": "conv", "case": e["case"], "kind": kind, "src": e["tree"]})
+            r.setdefault("src", e["tree"])      # the mixed kinds denote a tree derived from the generated one
+            r.update({"ev": "conv", "case": e["case"], "kind": kind})
             out(r)
 
 
@@ -466,10 +592,11 @@ def cmd_convcases(mods, inp, out):
     for key, tj in trees.items():
         t = tree_from_json(tj)
         classic = bytes(program_of(mods[1], t))
-        for kind in ["lazynode", "fresh", "program", "clvmtree", "stable"]:
+        for kind in ["lazynode", "fresh", "program", "clvmtree", "stable", "mixed_d1", "mixed_similar"]:
             n += 1
             r = conv_one(mods, kind, t, classic)
-            good = r.get("ok") and tree_from_json(r["res"]) == t
+            want = tree_from_json(r["src"]) if "src" in r else t
+            good = r.get("ok") and tree_from_json(r["res"]) == want
             if not good:
                 fresh = kind in FRESH_WRAPPERS
                 if fresh:
@@ -665,7 +792,7 @@ def main():
     elif cmd == "codec":
         cmd_codec(m, inp, out)
     elif cmd == "conv":
-        kinds = (opt("--kinds") or ",".join(WRAPPERS)).split(",")
+        kinds = (opt("--kinds") or ",".join(WRAPPERS + MIXED_WRAPPERS)).split(",")
         cmd_conv(mods, inp, out, kinds)
     elif cmd == "convcases":
         cmd_convcases(mods, inp, out)
